@@ -148,6 +148,14 @@ func (fx *FuncCtx) heapInitial(key, sort string) Term {
 		fx.useSeq = true
 	}
 	t := fx.declare(sort, "h_"+sanitizeIdent(key))
+	if fx.arrAlloc == nil {
+		fx.arrAlloc = map[Term]Term{}
+	}
+	if a0, ok := fx.heapInit["$alloc"]; ok {
+		fx.arrAlloc[t] = a0
+	} else {
+		fx.pendingInitArr = append(fx.pendingInitArr, t)
+	}
 	fx.heapInit[key] = t
 	fx.heapSort[key] = sort
 	return t
@@ -162,9 +170,25 @@ func (fx *FuncCtx) hget(st *State, key, sort string) Term {
 	return fx.heapInitial(key, sort)
 }
 
+// refBound: an upper bound for the references stored in (this version of) a heap array: the value
+// of the allocation counter when the version was created. Objects allocated later cannot be
+// referenced from it.
+func (fx *FuncCtx) refBound(st *State, arr Term) Term {
+	if b, ok := fx.arrAlloc[arr]; ok {
+		return b
+	}
+	return fx.allocTerm(st)
+}
+
 func (fx *FuncCtx) hset(st *State, key string, t Term) {
 	if st.heap == nil {
 		st.heap = map[string]Term{}
+	}
+	if fx.arrAlloc == nil {
+		fx.arrAlloc = map[Term]Term{}
+	}
+	if key != "$alloc" {
+		fx.arrAlloc[t] = fx.allocTerm(st)
 	}
 	st.heap[key] = t
 	if fx.heapWritten == nil {
@@ -229,6 +253,13 @@ func (fx *FuncCtx) allocTerm(st *State) Term {
 	t := fx.declare(sortInt, "alloc0")
 	fx.emit("(assert (<= 1000 " + t + "))")
 	fx.heapInit["$alloc"] = t
+	if fx.arrAlloc == nil {
+		fx.arrAlloc = map[Term]Term{}
+	}
+	for _, a := range fx.pendingInitArr {
+		fx.arrAlloc[a] = t
+	}
+	fx.pendingInitArr = nil
 	fx.heapSort["$alloc"] = sortInt
 	return t
 }
@@ -251,9 +282,10 @@ func (fx *FuncCtx) readField(st *State, ref Term, elem, path string, ft types.Ty
 		return fx.name(sort, hint, t)
 	}
 	if en, ok := elemName(ft); ok {
-		v := nm(sortInt, "rf", sSel(fx.hget(st, key, arrSort(sortInt)), ref))
+		arr := fx.hget(st, key, arrSort(sortInt))
+		v := nm(sortInt, "rf", sSel(arr, ref))
 		if !pure {
-			fx.assume(st.pc, sAnd(sLe("0", v), sLe(v, fx.allocTerm(st))))
+			fx.assume(st.pc, sAnd(sLe("0", v), sLe(v, fx.refBound(st, arr))))
 		}
 		return VRef{v, en}
 	}
@@ -394,7 +426,7 @@ func (e *Ev) heapMapGet(m VMapRef, key Val, n ast.Node) (val Val, has Term) {
 		t := sIte(has, raw, "0")
 		if !e.contract {
 			t = fx.name(sortInt, "mg", t)
-			fx.assume(e.st.pc, sAnd(sLe("0", t), sLe(t, fx.allocTerm(e.st))))
+			fx.assume(e.st.pc, sAnd(sLe("0", t), sLe(t, fx.refBound(e.st, vals))))
 		}
 		return VRef{t, strings.TrimPrefix(m.Kind, "ref:")}, has
 	case m.Kind == "bool":
@@ -532,6 +564,12 @@ func (fx *FuncCtx) writeField(st *State, ref Term, elem, path string, ft types.T
 		put(key+"#l", sortInt, vv.L)
 	case VOpaque:
 		// unmodelled field contents
+	case VStruct:
+		for _, name := range vv.Names {
+			if ft2 := fx.prog.fieldType(elem, path+"."+name); ft2 != nil {
+				fx.writeField(st, ref, elem, path+"."+name, ft2, vv.F[name], n)
+			}
+		}
 	case VSub:
 		// struct copy of a by-value sub-object: copy every modelled field below it
 		fx.copySub(st, vv, ref, elem, path, n)
@@ -676,6 +714,12 @@ func (fx *FuncCtx) writeZeroOr(st *State, ref Term, elem, field string, ft types
 			}
 			return
 		}
+		if n, ok := ft.(*types.Named); ok && n.Obj().Pkg() != nil && n.Obj().Pkg().Path() == "sync" && n.Obj().Name() == "Mutex" {
+			key := elem + "." + field + ".held"
+			srt := arrSort(sortBool)
+			fx.hset(st, key, fx.name(srt, "hl", fmt.Sprintf("(store %s %s false)", fx.hget(st, key, srt), ref)))
+			return
+		}
 		// zero sub-object: zero its modelled scalar fields
 		stt := ft.Underlying().(*types.Struct)
 		for i := 0; i < stt.NumFields(); i++ {
@@ -715,13 +759,23 @@ func (x *Exec) deferStmt(s *ast.DeferStmt, st *State) *Flow {
 	if !ok || sel.Sel.Name != "Unlock" || len(s.Call.Args) != 0 {
 		unsupp(s.Pos(), x.fx.prog.fset, "defer other than mu.Unlock() is outside the modelled subset")
 	}
-	x.deferred = append(x.deferred, s.Call)
+	// the receiver of a deferred method call is evaluated when the defer statement executes
+	mu, ok := x.ev(st).ev(sel.X).(VSub)
+	if !ok {
+		unsupp(s.Pos(), x.fx.prog.fset, "deferred Unlock of something that is not a mutex field")
+	}
+	x.deferredMu = append(x.deferredMu, deferredUnlock{mu, s.Call})
 	return &Flow{fall: st}
 }
 
+type deferredUnlock struct {
+	mu   VSub
+	call *ast.CallExpr
+}
+
 func (x *Exec) runDeferred(st *State) {
-	for i := len(x.deferred) - 1; i >= 0; i-- {
-		x.ev(st).ev(x.deferred[i])
+	for i := len(x.deferredMu) - 1; i >= 0; i-- {
+		x.ev(st).mutexOp(x.deferredMu[i].mu, "Unlock", x.deferredMu[i].call)
 	}
 }
 
@@ -815,17 +869,32 @@ func (e *Ev) evHeapGhost(name string, x *ast.CallExpr) (Val, bool) {
 		return VBool{sSel(e.fx.hget(e.st, key, arrSort(sortBool)), s.Ref)}, true
 	case "fresh":
 		// fresh(p): p was allocated by this call
-		r, ok := e.ev(x.Args[0]).(VRef)
-		if !ok || e.oldEv == nil {
+		var rt Term
+		switch r := e.ev(x.Args[0]).(type) {
+		case VRef:
+			rt = r.T
+		case VInt:
+			rt = r.T
+		case VMapRef:
+			rt = r.T
+		default:
 			e.unsupp(x, "fresh needs a reference")
 		}
-		return VBool{sLt(e.fx.allocTerm(e.oldEv.st), r.T)}, true
+		if e.oldEv == nil {
+			e.unsupp(x, "fresh needs a post-state")
+		}
+		return VBool{sLt(e.fx.allocTerm(e.oldEv.st), rt)}, true
 	case "allocated":
-		r, ok := e.ev(x.Args[0]).(VRef)
-		if !ok {
+		var rt Term
+		switch r := e.ev(x.Args[0]).(type) {
+		case VRef:
+			rt = r.T
+		case VInt:
+			rt = r.T
+		default:
 			e.unsupp(x, "allocated needs a reference")
 		}
-		return VBool{sAnd(sLe("0", r.T), sLe(r.T, e.fx.allocTerm(e.st)))}, true
+		return VBool{sAnd(sLe("0", rt), sLe(rt, e.fx.allocTerm(e.st)))}, true
 	case "nochange":
 		// nochange(): every heap location this contract may modify is as it was at entry
 		if e.oldEv == nil {
@@ -879,6 +948,37 @@ func (e *Ev) evHeapGhost(name string, x *ast.CallExpr) (Val, bool) {
 			cs = append(cs, fmt.Sprintf("(forall ((%s Int)) (=> %s (= (select %s %s) (select %s %s))))", p, sAnd(ne...), cur, p, old, p))
 		}
 		return VBool{sAnd(cs...)}, true
+	case "onlyfresh":
+		// onlyfresh(): no field, map entry or map domain of an object that existed when the function
+		// was entered differs from its entry value (mutex state excluded)
+		if e.oldEv == nil {
+			e.unsupp(x, "onlyfresh needs an entry state")
+		}
+		var cs []Term
+		var keys []string
+		for key := range e.fx.heapSort {
+			keys = append(keys, key)
+		}
+		sort.Strings(keys)
+		a0 := e.fx.allocTerm(e.oldEv.st)
+		for _, key := range keys {
+			if key == "$written" || key == "$alloc" || strings.HasSuffix(key, ".held") {
+				continue
+			}
+			srt := e.fx.heapSort[key]
+			if !strings.HasPrefix(srt, "(Array Int ") {
+				continue
+			}
+			cur := e.fx.hget(e.st, key, srt)
+			old := e.fx.hget(e.oldEv.st, key, srt)
+			if cur == old {
+				continue
+			}
+			quantSeq++
+			p := fmt.Sprintf("p!%d", quantSeq)
+			cs = append(cs, fmt.Sprintf("(forall ((%s Int)) (! (=> (<= %s %s) (= (select %s %s) (select %s %s))) :pattern ((select %s %s))))", p, p, a0, cur, p, old, p, cur, p))
+		}
+		return VBool{sAnd(cs...)}, true
 	case "written":
 		return VBool{e.fx.hgetScalar(e.st, "$written", sortBool)}, true
 	}
@@ -903,12 +1003,15 @@ func (x *Exec) havocHeapLoop(ls *loopSpec, head *State) {
 	}
 	// conservative: every location written so far or named in callee modifies clauses inside the body
 	written := map[string]bool{}
+	allocs := false
 	for _, n := range ls.modNodes {
 		if n == nil {
 			continue
 		}
 		ast.Inspect(n, func(n ast.Node) bool {
 			switch s := n.(type) {
+			case *ast.CompositeLit:
+				allocs = true
 			case *ast.AssignStmt:
 				for _, l := range s.Lhs {
 					if sel, ok := unparen(l).(*ast.SelectorExpr); ok {
@@ -919,16 +1022,28 @@ func (x *Exec) havocHeapLoop(ls *loopSpec, head *State) {
 					}
 				}
 			case *ast.CallExpr:
+				if id, ok := unparen(s.Fun).(*ast.Ident); ok && (id.Name == "make" || id.Name == "new") {
+					allocs = true
+				}
 				if fn := calleeOf(s, x.info); fn != nil {
 					if con := fx.prog.spec.Contracts[funcKey(fn)]; con != nil {
 						for _, k := range strings.Fields(con.Options["modifies"]) {
 							written["="+k] = true
+						}
+						if con.Options["allocates"] == "true" {
+							allocs = true
 						}
 					}
 				}
 			}
 			return true
 		})
+	}
+	if allocs {
+		a := fx.allocTerm(head)
+		na := fx.declare(sortInt, "alloc")
+		fx.emit("(assert (<= " + a + " " + na + "))")
+		head.heap["$alloc"] = na
 	}
 	for key := range fx.heapSort {
 		hit := written["="+key]
